@@ -2286,7 +2286,18 @@ class Parser:
             HolographicValue if this is a holographic pattern, None otherwise
         """
         # Quick check: must have CONSTRAINT token to be holographic
-        has_constraint = any(t.type == TokenType.CONSTRAINT for t in token_slice)
+        # The constraint operator must sit directly inside the outer brackets: a ∧ that
+        # belongs to an item of a nested list does not make the outer list a pattern.
+        has_constraint = False
+        depth = 0
+        for token in token_slice:
+            if token.type == TokenType.LIST_START:
+                depth += 1
+            elif token.type == TokenType.LIST_END:
+                depth -= 1
+            elif token.type == TokenType.CONSTRAINT and depth == 1:
+                has_constraint = True
+                break
         if not has_constraint:
             return None
 
